@@ -176,8 +176,11 @@ def run(ctx):
         classes[cls] = classes.get(cls, 0) + 1
         first.setdefault(cls, []).append((v, reset, evs, probs))
     fams = {n: (pkg, rx) for n, pkg, rx in FAMILIES}
+    reproduced = 0
     for cls, items in first.items():
         known = findings.match(ctx.pid, cls) is not None
+        if not known and reproduced >= 5:
+            continue            # the point is made; the remaining classes are listed in rejected_classes
         for v, reset, evs, probs in items[:2]:
             rep = "listed in known_findings.d (reproduced by construction in every run)"
             if not known:
@@ -187,15 +190,18 @@ def run(ctx):
                     inconclusive.append("%s (%s %s)" % (cls, reset.get("cfg", ""), reset.get("plan", "")))
                     ctx.notes.append("INCONCLUSIVE: %s rejected once and not again in 6 repetitions" % inconclusive[-1])
                     break
-            path = save_replay(ctx, "ledger-seed%d-%s.json" % (ctx.seed, v.name), {
+                reproduced += 1
+            fname = "ledger-seed%d-%s.json" % (ctx.seed, v.name)
+            if known:
+                fname = "known-%s.json" % re.sub(r"[^A-Za-z0-9_.-]+", "_", cls)   # one artefact per known finding, overwritten
+            path = save_replay(ctx, fname, {
                 "verdict": v.as_dict(), "case": reset, "class": cls, "left_over": probs, "events": evs, "reproduction": rep,
                 "how_to_rerun": "VERIF_C04_ONLY='%s' VERIF_C04_REPEAT=6 ./tools_gotest.sh %s '%s' -v" % (
                     only_arg(reset), fams[reset["family"]][0], fams[reset["family"]][1])})
             ctx.violations.append({"cls": cls, "replay": path, "what": "%s: ledger %s (%s %s) is not a behaviour of C04_Obs at event %d/%d %s; left over: %s" % (
                 cls, v.name, reset.get("cfg", ""), reset.get("plan", ""), v.matched, v.length,
                 json.dumps(v.next_event)[:160], ", ".join(probs) or "-")})
-            if not known:
-                break
+            break
     if inconclusive and not any(findings.match(ctx.pid, v["cls"]) is None for v in ctx.violations):
         # nothing but unreproducible rejections: exit 2, never a verdict
         raise MachineryError("rejected once and not reproduced: %s" % inconclusive[:4])
